@@ -24,7 +24,7 @@ theorem remOut_false (eol : UInt8) (join : Bool) (ls : List Bytes) (i : Nat)
     (rest : List UserBounds) : remOut eol join ls i false rest = linesOut eol join ls rest := by
   cases rest with
   | nil => rfl
-  | cons b t => simp [remOut, linesOut, headText, selText]
+  | cons b t => cases h : resolve b ls.length <;> simp [remOut, linesOut, headText, selText, h]
 
 /-- `add_newline_next` ⇔ the pending bound has printed lines `lo … i` and is not finished;
     otherwise it has printed nothing and none of its lines has been read -/
@@ -72,6 +72,147 @@ theorem fwdLine_step (o : Opt) (ls : List Bytes) (i : Nat) (line : Bytes) (tl : 
     rw [List.map_cons]
     simp only [fwdLine]
     rw [hk]
+    rw [hk] at ih
+    have hbr : b.r ≠ .cont → b.r = .some (hi : Int) := by
+      intro hne
+      rcases sel.right with h | h
+      · exact h
+      · exact absurd h.1 hne
+    have hhi : b.r = .cont → hi = ls.length := by
+      intro hc
+      rcases sel.right with h | h
+      · rw [hc] at h; cases h
+      · exact h.2
+    -- what happens once the line has been printed
+    have fin : ∀ pre : Bytes, lo ≤ i + 1 → i + 1 ≤ hi → ∃ w rest' a',
+        (if b.r = Side.some ((i + 1 : Nat) : Int) then
+            (pre ++ lineJoiner o (List.map BoF.bound t) ++
+                (fwdLine o line ((i + 1 : Nat) : Int) (List.map BoF.bound t) false).fst,
+              (fwdLine o line ((i + 1 : Nat) : Int) (List.map BoF.bound t) false).2.fst,
+              (fwdLine o line ((i + 1 : Nat) : Int) (List.map BoF.bound t) false).2.snd)
+          else (pre, BoF.bound b :: List.map BoF.bound t, true))
+          = (w, rest'.map .bound, a') ∧ Good ls rest' ∧ Inv ls (i + 1) a' rest' ∧
+        pre ++ (contText o.eol.byte (slice ls (i + 1) hi) ++ joinerOf o.eol.byte o.join t
+            ++ linesOut o.eol.byte o.join ls t)
+          = w ++ remOut o.eol.byte o.join ls (i + 1) a' rest' := by
+      intro pre hlo hle
+      by_cases hfin : b.r = Side.some ((i + 1 : Nat) : Int)
+      · rw [if_pos hfin]
+        have hhi1 : hi = i + 1 := by
+          have := hbr (by rw [hfin]; simp)
+          rw [hfin] at this
+          simp only [Side.some.injEq] at this
+          omega
+        have hinvt : Inv ls i false t := by
+          cases t with
+          | nil => trivial
+          | cons q t' =>
+            cases hq : resolve q ls.length with
+            | none => exact absurd hq (hg.res q (by simp))
+            | some lh =>
+              obtain ⟨lo', hi'⟩ := lh
+              have selq := Sel.of_resolve (hg.pos q (by simp)) hq
+              have hf : Follows b q := hg.asc.1
+              unfold Follows at hf
+              rw [hfin] at hf
+              simp only at hf
+              rw [selq.left] at hf
+              exact ⟨lo', hi', hq, by simp only [Bool.false_eq_true, if_false]; omega⟩
+        obtain ⟨w', rest', a', hf, hg', hinv', hrem⟩ := ih false hg.tail hinvt
+        rw [hf]
+        refine ⟨pre ++ lineJoiner o (List.map BoF.bound t) ++ w', rest', a', rfl, hg', hinv', ?_⟩
+        rw [slice_eq_nil_of_le ls (by omega : hi ≤ i + 1), contText_nil, ← remOut_false _ _ _ i,
+          hrem, lineJoiner_map]
+        simp only [List.nil_append, List.append_assoc]
+      · rw [if_neg hfin]
+        refine ⟨pre, b :: t, true, rfl, hg, ⟨lo, hi, hres, ?_⟩, ?_⟩
+        · simp only [if_true]
+          refine ⟨hlo, fun hne => ?_⟩
+          have := hbr hne
+          rw [this] at hfin
+          simp only [Side.some.injEq] at hfin
+          omega
+        · simp [remOut, headText, hres]
+    by_cases hmatch : (b.matches ((i + 1 : Nat) : Int)).getD false = true
+    · rw [if_pos hmatch]
+      obtain ⟨h1, h2⟩ := hm.1 hmatch
+      have hle : i + 1 ≤ hi := by
+        rcases h2 with h | h
+        · exact h
+        · have := hhi h; omega
+      obtain ⟨w, rest', a', hf, hg', hinv', hrem⟩ :=
+        fin ((if addNl = true then [o.eol.byte] else []) ++ line) h1 hle
+      refine ⟨w, rest', a', hf, hg', hinv', ?_⟩
+      rw [← hrem]
+      have hsl : slice ls i hi = line :: slice ls (i + 1) hi := slice_cons_of_drop hd (by omega)
+      cases addNl with
+      | true =>
+        simp [remOut, headText, hres, hsl]
+      | false =>
+        simp only [Bool.false_eq_true, if_false] at hcond
+        have : lo - 1 = i := by omega
+        simp [remOut, headText, hres, this, hsl]
+    · rw [if_neg hmatch]
+      have hnm := fun h => hmatch (hm.2 h)
+      cases addNl with
+      | true =>
+        exfalso
+        simp only [if_true] at hcond
+        apply hnm
+        refine ⟨by omega, ?_⟩
+        by_cases hc : b.r = .cont
+        · exact Or.inr hc
+        · exact Or.inl (by have := hcond.2 hc; omega)
+      | false =>
+        simp only [Bool.false_eq_true, if_false] at hcond
+        have hlt : i + 1 < lo := by
+          apply Classical.byContradiction
+          intro hcon
+          exact hnm ⟨by omega, Or.inl (by have := sel.lo_le; omega)⟩
+        refine ⟨[], b :: t, false, rfl, hg, ⟨lo, hi, hres, by simp only [Bool.false_eq_true, if_false]; exact hlt⟩, ?_⟩
+        rw [remOut_false, remOut_false]; rfl
+
+/-- the read loop prints exactly what remains -/
+theorem fwdLines_eq (o : Opt) (ls : List Bytes)
+    (hutf : o.eol = .newline → ∀ l ∈ ls, validUtf8 l = true) :
+    ∀ (ls' : List Bytes) (i : Nat) (rest : List UserBounds) (addNl : Bool),
+      ls.drop i = ls' → Good ls rest → Inv ls i addNl rest →
+      fwdLines o ls' (i : Int) (rest.map .bound) addNl
+        = Run.ok (remOut o.eol.byte o.join ls i addNl rest ++ [o.eol.byte]) := by
+  intro ls'
+  induction ls' with
+  | nil =>
+    intro i rest addNl hd hg hinv
+    have hlen : ls.length ≤ i := List.drop_eq_nil_iff.1 hd
+    simp only [fwdLines]
+    cases rest with
+    | nil => rfl
+    | cons b t =>
+      obtain ⟨lo, hi, hres, hcond⟩ := hinv
+      have sel := Sel.of_resolve (hg.pos b (by simp)) hres
+      cases addNl with
+      | false =>
+        exfalso
+        simp only [Bool.false_eq_true, if_false] at hcond
+        have := sel.lo_le; have := sel.hi_le; omega
+      | true =>
+        simp only [if_true] at hcond
+        have hc : b.r = .cont := by
+          apply Classical.byContradiction
+          intro hne
+          have := hcond.2 hne; have := sel.hi_le; omega
+        have ht : t = [] := by
+          cases t with
+          | nil => rfl
+          | cons q t' =>
+            have hf : Follows b q := hg.asc.1
+            unfold Follows at hf; rw [hc] at hf; exact hf.elim
+        subst ht
+        simp [fwdEnd, hc, lineJoiner, remOut, headText, hres, slice_eq_nil_of_length_le ls hi hlen,
+          joinerOf, linesOut, Run.pre, Run.ok]
+  | cons line tl ih =>
+    intro i rest addNl hd hg hinv
+    simp only [fwdLines]
     trace_state
     sorry
 
